@@ -131,6 +131,7 @@ structure St where
   cfg : Cfg := ⟨[], []⟩
   probes : List Str := []
   nsvc : Nat := 0
+  susp : Bool := false             -- the requester suspends before answering
   rt : Routing := []               -- model registry
   steps : List Step := []          -- implementation trace (reversed)
   cur : Option Pending := none
@@ -146,7 +147,7 @@ def finalize (st : St) : St :=
   match st.cur with
   | none => st
   | some p =>
-    let o := runCall st.cfg st.rt p.call p.reacts
+    let o := runCallS st.cfg st.susp st.rt p.call p.reacts
     let mReq := o.exch.map fmtExch
     let mRes := fmtResult o.res
     let mRouted := fmtRouted (st.probes.map fun s => (s, get? o.rt s))
@@ -172,6 +173,7 @@ def stepLine (st : St) (toks : List String) : St :=
       | some l => { st with probes := l }
       | none => bad st "bad probe")
   | ["nsvc", n] => { st with nsvc := n.toNat! }
+  | ["mode", m] => { st with susp := m = "susp" }
   | "call" :: rest =>
       let st := finalize st
       (match parseCall rest with
@@ -204,7 +206,7 @@ def firstBad : PyDict Str Nat → List Step → Nat → Option Nat
 
 def explain (exp : PyDict Str Nat) (s : Step) : String :=
   let exp' := s.exch.foldl foldExch exp
-  s!"routed={routedOk exp' s} result={resultOk s} target={targetOk s} fallback={fallbackOk s.exch} valid={s.exch.all (fun e => validReq e.req)} expected[{fmtRouted (exp'.map fun p => (p.1, some p.2))}]"
+  s!"routed={routedOk exp' s} result={resultOk s} target={targetOk s} fallback={fallbackOk s.call s.exch} valid={s.exch.all (fun e => validReq e.req)} expected[{fmtRouted (exp'.map fun p => (p.1, some p.2))}]"
 
 def expAt : PyDict Str Nat → List Step → Nat → PyDict Str Nat
   | exp, _, 0 => exp
